@@ -176,6 +176,14 @@ class DGen:
             else:
                 parts.append(self.subst(0, "dq"))
         parts = self.norm(parts)
+        # text written without blanks is one literal (literals are kept apart only across blanks)
+        merged = []
+        for p in parts:
+            if merged and merged[-1].ser.startswith("L") and p.ser.startswith("L"):
+                merged[-1] = self.L(merged[-1].text + p.text)
+            else:
+                merged.append(p)
+        parts = merged
         return Part("A" + wser(parts), "$((" + "".join(p.text for p in parts) + "))")
 
     def word(self, d=2, cmdpos=False):
